@@ -130,6 +130,19 @@ def run (args : List String) : Option String :=
     let xs ← parseList? parseRat? xs; let ys ← parseList? parseRat? ys
     let P : Poly2d := ⟨Poly2d.reshape k cc, A⟩
     pure (fmtRes (fun rows => fmtList (fun row => fmtList fmtPt row) rows) ((P.withInputTransform A2).grid2d xs ys))
+  | ["splittr", x, y] => do
+    let x ← parseRat? x; let y ← parseRat? y
+    let r := splitTranslation (x, y)
+    pure s!"{fmtPt r.1} {fmtPt r.2}"
+  | ["fitkind", n] => do
+    let n ← parseNat? n
+    pure (fmtRes (fun k => match k with
+      | Poly2d.FitKind.affine => "affine 3 2"
+      | .bilinear => "bilinear 4 2"
+      | .biquadratic => "biquadratic 9 3") (Poly2d.fitKind n))
+  | ["design", n, x, y] => do
+    let n ← parseNat? n; let x ← parseRat? x; let y ← parseRat? y
+    pure (fmtRes (fun k => fmtList fmtRat (Poly2d.designRow k (x, y))) (Poly2d.fitKind n))
   | ["denorm", cc, Ab] => do
     let cc ← parseList? parsePt? cc; let Ab ← parseAff? Ab
     pure (fmtList fmtPt (Poly2d.denorm cc Ab))
